@@ -64,6 +64,9 @@ type jIt struct {
 	Max  uint64      `json:"max"`
 	Err  string      `json:"err"`
 	Ents [][3]uint64 `json:"ents"`
+	// a range that starts at or below the removal point: nothing of the logical log is there any more; the
+	// store may answer with nothing, with an error, or with entries it still has - it must not crash
+	Below bool `json:"below"`
 }
 
 type jPanelLS struct {
@@ -331,6 +334,31 @@ func (s *lsSim) panel(k int) jPanelLS {
 			}
 		}
 		p.Its = append(p.Its, it)
+	}
+	if n.rm >= 1 {
+		for q := 0; q < 2; q++ {
+			lo := 1 + uint64(s.rng.Intn(int(n.rm)))
+			if n.rm > 6 && s.rng.Intn(2) == 0 {
+				lo = n.rm - uint64(s.rng.Intn(6))
+			}
+			it := jIt{Lo: lo, Hi: lo + 1 + uint64(q), Max: 1000000000, Ents: [][3]uint64{}, Below: true}
+			func() {
+				defer func() {
+					if r := recover(); r != nil {
+						it.Err = fmt.Sprintf("panic: %v", r)
+					}
+				}()
+				ents, _, err := s.db.IterateEntries(nil, 0, n.Shard, n.Replica, it.Lo, it.Hi, ^uint64(0))
+				if err != nil {
+					it.Err = err.Error()
+					return
+				}
+				for _, e := range ents {
+					it.Ents = append(it.Ents, [3]uint64{e.Index, e.Term, entVal(e)})
+				}
+			}()
+			p.Its = append(p.Its, it)
+		}
 	}
 	return p
 }
